@@ -12,6 +12,39 @@ INTERIOR = re.compile(r"\b(Cell|RefCell|UnsafeCell|Mutex|RwLock|OnceCell|OnceLoc
 AMBIENT = re.compile(r"SystemTime|Instant|std::env|env::|std::fs|fs::|process::|thread_rng|rand::|getrandom|thread::current")
 
 
+def witnesses(c, facts):
+    """Type-level witnesses: rustc itself refuses programs that would read or replace the stored parts; twins compile."""
+    import fcntl
+    import shutil
+    import subprocess
+    import tempfile
+
+    wdir = os.path.join(F.VERIF, "witness")
+    repo = facts.data["root"]
+    d = tempfile.mkdtemp(prefix="vwit-")
+    try:
+        os.makedirs(os.path.join(d, "src"))
+        shutil.copy(os.path.join(wdir, "src", "lib.rs"), os.path.join(d, "src", "lib.rs"))
+        open(os.path.join(d, "Cargo.toml"), "w").write(open(os.path.join(wdir, "Cargo.toml.in")).read().replace("@REPO@", repo))
+        lock = os.path.join(repo, "Cargo.lock")
+        if os.path.exists(lock):
+            # same dependency versions as the repository; cargo adds the witness package itself
+            shutil.copy(lock, os.path.join(d, "Cargo.lock"))
+        cache = os.path.join(F.VERIF, ".cache")
+        os.makedirs(cache, exist_ok=True)
+        env = dict(os.environ, CARGO_NET_OFFLINE="true", CARGO_TARGET_DIR=os.path.join(cache, "target-witness"))
+        with open(os.path.join(cache, "target-witness.lock"), "w") as lk:
+            fcntl.flock(lk, fcntl.LOCK_EX)
+            p = subprocess.run(["cargo", "+nightly", "test", "--doc", "--offline"], cwd=d, env=env, capture_output=True, text=True)
+        out = p.stdout + p.stderr
+        results = dict(re.findall(r"test src/lib\.rs - (\w+) \(line \d+\)(?: - compile fail)? \.\.\. (\w+)", out))
+        want = ["RenderThroughSharedReference", "PolicyBodyIsPrivate", "TableIsPrivate", "TableIsReturnedByValue"]
+        for w in want:
+            c.ob("C20.witness", "witness/src/lib.rs", w, results.get(w) == "ok", "doc-test %s: %s" % (w, results.get(w, "not run: " + out.strip().splitlines()[-1][:120] if out.strip() else "no output")))
+    finally:
+        shutil.rmtree(d, ignore_errors=True)
+
+
 def run(c, facts, tier):
     c.trusted = ["E1 extractor", "emission interpreter", "rustc: `&self` cannot mutate a type without interior mutability; private fields are inaccessible to callers (compile-fail witnesses in /verif/witness, thorough tier)"]
     c.explanation = (
@@ -81,5 +114,7 @@ def run(c, facts, tier):
                 "the device path is %s" % ("escaped by %s" % callee if okd else "interpolated raw: a path containing \" or \\ does not decode to itself and changes the structure of the program"),
                 witness='scheme("/dev/a\\"b")' if not okd else None,
             )
+    if tier == "thorough":
+        witnesses(c, facts)
     c.floor("CompiledExpression methods", len(meths), 2)
     c.control("C20.pure", bool(INTERIOR.search("Cell<u32>")) and bool(INTERIOR.search("RefCell<String>")), "fixture field types Cell<u32>/RefCell<String> are recognised as interior mutability")
